@@ -6,6 +6,7 @@
    values, the runtime-global rt.labels list); SpecSem = exec_s (ES5 12.x
    completion records, label sets).  Proofs: C01/Sim.v, C01/Proofs.v. *)
 From Coq Require Import List Bool ZArith.
+From Otto Require C01.Full C01.FullProofs.
 From Otto Require Import C01.Sem C01.Wf C01.Sim C01.Lang C01.Proofs.
 Import ListNotations.
 
@@ -66,6 +67,22 @@ Print Assumptions C01_label_catch_refuted.
 Theorem C01_label_bare_refuted : exists p, differs p = true /\ wf (SBlock p) = false.
 Proof. exists w_label_bare. exact w_label_bare_differs. Qed.
 Print Assumptions C01_label_bare_refuted.
+
+(* MiniJS+ (C01/Full.v): the ES5 reference semantics used as the oracle for
+   functions, closures, this, arguments, call/apply/bind, constructors, every
+   loop form, switch and for-in gives answers that do not depend on the fuel:
+   an answer obtained with some fuel is THE answer for every larger fuel *)
+Theorem C01_reference_semantics_fuel_independent : forall n m p,
+  (n <= m)%nat -> snd (Full.run_program n p) <> Full.FOutOfFuel ->
+  Full.run_program m p = Full.run_program n p.
+Proof. exact FullProofs.run_program_stable. Qed.
+Print Assumptions C01_reference_semantics_fuel_independent.
+
+Example C01_reference_semantics_runs :
+  Full.run_program 60 [Full.JFunDecl [102] [[120]] [Full.JReturn (Some (Full.XBin Full.PAdd (Full.XVar [120]) (Full.XLit (Full.WNum 1))))];
+                       Full.JExpr (Full.XLog (Full.XCall (Full.XVar [102]) [Full.XLit (Full.WNum 41)]))]
+  = ([Full.WNum 42], Full.FNormal).
+Proof. vm_compute. reflexivity. Qed.
 
 (* non-vacuity: a program with labelled loop, try/finally, break/continue/return meets the guard *)
 Example C01_guard_met : wf (SBlock w_wf) = true /\
